@@ -446,7 +446,7 @@ theorem Agrees.run_eq {st : PSt} {rF : PlanRes PSt} {run : PSt → Res PSt} (h :
 
 /-! ### 2. one `Transform.replace` with the Fitter model -/
 
-theorem fitsTrivially_eq (S : Schema) (rf rt : RPos) (sl : Slice) :
+theorem fitsTrivially_eqR (S : Schema) (rf rt : RPos) (sl : Slice) :
     fitsTrivially S rf rt sl =
       (match fitsTriviallyR S rf rt sl with
         | none => .error .valueError
@@ -484,7 +484,7 @@ theorem PSt.replaceF_spec (S : Schema) (st st' : PSt) (f t : Nat) (sl : Slice)
     rw [if_neg hc]
     split at h
     · rename_i rf rt hrf hrt
-      rw [fitsTrivially_eq] at h
+      rw [fitsTrivially_eqR] at h
       simp only [hrf, hrt]
       cases hft : fitsTriviallyR S rf rt sl with
       | none => rw [hft] at h; simp at h
